@@ -371,7 +371,8 @@ theorem decodeLoop_spec (hn : 0 < n) (hk : 0 < P.k) (hm : 0 < P.maxChain) (hF : 
     ∀ (fuel : Nat) (tab : Table) (pures rem mis A B : List Ref),
       Inv H P n U A0 B0 ⟨tab, pures, rem, mis, false⟩ A B → A.length + B.length < fuel →
       (∃ r m, decodeLoop H P fuel tab pures rem mis = .ok r m ∧ (∀ x, x ∈ A0 ↔ x ∈ r) ∧ (∀ x, x ∈ B0 ↔ x ∈ m)) ∨
-      (∃ r m, decodeLoop H P fuel tab pures rem mis = .notPossible r m ∧ (A0 ≠ [] ∨ B0 ≠ [])) := by
+      (∃ r m, decodeLoop H P fuel tab pures rem mis = .notPossible r m ∧ (A0 ≠ [] ∨ B0 ≠ []) ∧
+        (∀ x ∈ r, x ∈ A0) ∧ (∀ x ∈ m, x ∈ B0)) := by
   intro fuel
   induction fuel with
   | zero => intro _ _ _ _ _ _ _ h; omega
@@ -398,7 +399,7 @@ theorem decodeLoop_spec (hn : 0 < n) (hk : 0 < P.k) (hm : 0 < P.maxChain) (hF : 
         · intro x; rw [inv'.misB x, hB]; simp
       · simp only [he, Bool.false_eq_true, if_false]
         right
-        refine ⟨_, _, rfl, ?_⟩
+        refine ⟨_, _, rfl, ?_, fun x hx => (inv'.remA x).mpr (Or.inl hx), fun x hx => (inv'.misB x).mpr (Or.inl hx)⟩
         apply Classical.byContradiction
         intro hcon
         have hA0 : A0 = [] := Classical.byContradiction (fun h => hcon (Or.inl h))
